@@ -17,9 +17,20 @@ trait Sc: Copy + std::fmt::Debug + PartialEq + Serialize + DeserializeOwned + Se
     fn generic(i: usize) -> Self;
     fn bits(self) -> u64;
     fn tok(self) -> Tok;
+    /// float types: the value of an f64
+    fn from_f64(_x: f64) -> Option<Self> {
+        None
+    }
+    fn as_f64(self) -> f64;
 }
 impl Sc for f64 {
     const NAME: &'static str = "f64";
+    fn from_f64(x: f64) -> Option<f64> {
+        Some(x)
+    }
+    fn as_f64(self) -> f64 {
+        self
+    }
     fn alphabet() -> Vec<f64> {
         vec![0.0, -0.0, 1.0, -1.5, f64::MIN_POSITIVE, 5e-324, f64::MAX, 0.1, std::f64::consts::PI, 1e-310, -f64::MAX, 1.0000000000000002]
     }
@@ -36,6 +47,12 @@ impl Sc for f64 {
 }
 impl Sc for f32 {
     const NAME: &'static str = "f32";
+    fn from_f64(x: f64) -> Option<f32> {
+        Some(x as f32)
+    }
+    fn as_f64(self) -> f64 {
+        self as f64
+    }
     fn alphabet() -> Vec<f32> {
         vec![0.0, -0.0, 1.0, -1.5, f32::MIN_POSITIVE, 1e-45, f32::MAX, 0.1, std::f32::consts::PI, 1e-40, -f32::MAX, 1.0000001]
     }
@@ -52,6 +69,9 @@ impl Sc for f32 {
 }
 impl Sc for i32 {
     const NAME: &'static str = "i32";
+    fn as_f64(self) -> f64 {
+        self as f64
+    }
     fn alphabet() -> Vec<i32> {
         vec![0, 1, -1, i32::MAX, i32::MIN, 65536, -32769]
     }
@@ -318,16 +338,23 @@ fn roundtrip<S: Sc>(rep: &mut Report, cfgs: &[Cfg<S>]) {
         // different, every 3rd / 4th / 5th position different (identity matrices, unit columns, the identity quaternion,
         // zero vectors: the values a "skip if default" attribute would drop)
         let pl = 3.min(alpha.len());
+        // float types: the generic components scaled so that the sum of their squares is 1 + d, d = +-2^-j for every
+        // second j up to 40 (unit quaternions, orthonormal columns and values next to them: what a "repair on load" touches)
+        let ladder: Vec<f64> = if S::from_f64(0.0).is_some() { (4..=40).step_by(2).flat_map(|j| [2f64.powi(-j), -(2f64.powi(-j))]).chain([0.0]).collect() } else { vec![] };
         let n_pat = alpha.len() + pl * pl * (n + 3);
         rep.cases(
             &format!("roundtrip/{}", c.name),
             "S",
-            &format!("generic components with <= {k} of {n} positions replaced by each of {} special values (0, -0, subnormals, MAX, 0.1, pi, ...), plus {n_pat} whole-value patterns (uniform; one position or every 3rd/4th/5th position 0, -0 or 1 on a background of 0, -0 or 1); the value also built through its public fields; token format (human readable and not) and serde_json", alpha.len()),
-            dev.len() + n_pat,
+            &format!("generic components with <= {k} of {n} positions replaced by each of {} special values (0, -0, subnormals, MAX, 0.1, pi, ...), plus (float types) the whole value scaled to squared length 1 + d for 37 values of d down to +-2^-40, plus {n_pat} whole-value patterns (uniform; one position or every 3rd/4th/5th position 0, -0 or 1 on a background of 0, -0 or 1); the value also built through its public fields; token format (human readable and not) and serde_json", alpha.len()),
+            dev.len() + n_pat + ladder.len(),
             Guard::states(5).distinct(5),
             |i, ctx| {
                 let mut comps: Vec<S> = (0..n).map(S::generic).collect();
-                if i < dev.len() {
+                if i >= dev.len() + n_pat {
+                    let d = ladder[i - dev.len() - n_pat];
+                    let norm = comps.iter().map(|x| x.as_f64() * x.as_f64()).sum::<f64>().sqrt();
+                    comps = comps.iter().map(|x| S::from_f64(x.as_f64() / norm * (1.0 + d).sqrt()).unwrap()).collect();
+                } else if i < dev.len() {
                     for (p, l) in dev.get(i) {
                         comps[p] = alpha[l];
                     }
